@@ -226,7 +226,7 @@ class Lifecycle(BaseEngine):
     name = 'lifecycle'
 
     def tiers(self, prop):
-        return {'quick': 150_000, 'thorough': 15_000_000}
+        return {'quick': 300_000, 'thorough': 15_000_000}
 
     # ---------------------------------------------------------------- generation
     def _gen_dev(self, rng, can_hang=True, split_ok=True):
